@@ -104,7 +104,12 @@ def kw_spike(rng, case):
 def kw_sync(rng, case):
     T = case["te"] - case["ts"]
     kw = kw_isi(rng, case)
-    if case["dyadic"]:
+    if "m" in case:
+        # window-scale workload: keyword values of the order of the ISIs
+        m_ = case["m"]
+        kw["max_tau"] = rng.choice([None, m_ / 2, m_, m_, 1.5 * m_, 3 * m_])
+        kw["MRTS"] = rng.choice([0, 0, m_, 3 * m_, 6 * m_])
+    elif case["dyadic"]:
         kw["max_tau"] = as_user_number(rng, rng.choice(gen.maxtau_choices(T, case["step"])))
     else:
         kw["max_tau"] = rng.choice([None, None, 0, T * 10 ** rng.uniform(-5, 0.5)])
@@ -265,7 +270,10 @@ def list_stream(rng, tier, n, k=0, K=1, kw_fn=None, nmin=2, nmax_trains=None):
     di = k + K * rng.randrange(5000)
     for idx in range(n):
         r = rng.random()
-        if tier == "thorough" and r < 0.03 and gen.real_case(rng, env_repo(), max(nmin, 3)):
+        if r > 0.92 and nmin <= 3:
+            case = gen.window_scale_list(rng, rng.randint(max(2, nmin), max(3, nmin)))
+            case["src"] = "W14"
+        elif tier == "thorough" and r < 0.03 and gen.real_case(rng, env_repo(), max(nmin, 3)):
             case = gen.real_case(rng, env_repo(), rng.randint(max(nmin, 3), max(nmin, 3) + 2), max_spikes=25)
             case["src"] = "W12"
         elif r < 0.65:
